@@ -178,9 +178,21 @@ def _run_dimscheck(case, ctx):
                 kw["exclude_dims"] = conv(excl)
             ctx.tick()
             sub = {"check": "dimscheck", "N": N, "dims": dims, "excl": excl}
+            before = {k: (v.copy() if isinstance(v, np.ndarray) else list(v)) for k, v in kw.items()}
             ok, got = _call(ctx, "tt_dimscheck", lambda: tt_dimscheck(N, M, **kw), case=sub, variant=f"M={'None' if M is None else ('P' if M == P else 'N')}")
             if not ok:
                 continue
+            # the helper answers a question: it must leave the caller's designation as it was, and (depth 2) asking
+            # again with the very same argument objects must give the same answer
+            if any(not np.array_equal(np.asarray(kw[k]), np.asarray(before[k])) for k in kw):
+                ctx.fail("tt_dimscheck", "operand_mutated", f"N={N} M={M} {fname}: {before} became {kw}", case=sub)
+                continue
+            ctx.tick()
+            ok2, got2 = _call(ctx, "tt_dimscheck", lambda: tt_dimscheck(N, M, **kw), case=sub, variant="second_call")
+            if ok2 and not all((a is None and b is None) or (a is not None and b is not None and np.array_equal(a, b))
+                               for a, b in zip(got, got2)):
+                ctx.fail("tt_dimscheck", "history_dependent", f"N={N} M={M} dims={dims} excl={excl}: {got} then {got2}",
+                         case=sub)
             sd, vidx = got
             wsd, wv = ref_dimscheck(N, M, dims, excl)
             bad = list(np.asarray(sd).tolist()) != wsd
@@ -339,9 +351,12 @@ def _run_khatrirao(case, ctx):
     mats = [np.array(space.int_matrix(r, c, salt=7 * k, seed=seed)) for k, r in enumerate(rows)]
     ctx.state()
     ctx.tick()
-    ok, got = _call(ctx, "khatrirao", lambda: khatrirao(*[m.copy() for m in mats], reverse=rev))
+    args = [m.copy() for m in mats]
+    ok, got = _call(ctx, "khatrirao", lambda: khatrirao(*args, reverse=rev))
     if not ok:
         return
+    if any(not np.array_equal(a, m) for a, m in zip(args, mats)):
+        ctx.fail("khatrirao", "operand_mutated", f"rows={rows} cols={c} rev={rev}")
     ms = list(reversed(mats)) if rev else mats
     # column-wise Kronecker product in the stated order: kron(A,B)[i*J+j] = A[i]*B[j]
     want = np.zeros((prod(rows), c))
@@ -353,6 +368,15 @@ def _run_khatrirao(case, ctx):
     if got.shape != want.shape or not np.array_equal(got, want):
         ctx.fail("khatrirao", "wrong_value", f"rows={rows} cols={c} rev={rev}")
     ctx.outcome(got)
+    # the flag as a numpy boolean (e.g. the result of a comparison): rejected or honoured, never silently ignored
+    ctx.tick()
+    try:
+        got_np = khatrirao(*[m.copy() for m in mats], reverse=np.bool_(rev))
+    except Exception:  # noqa: BLE001
+        ctx.count("khatrirao:np_bool_rejected")
+    else:
+        if got_np.shape != want.shape or not np.array_equal(got_np, want):
+            ctx.fail("khatrirao", "wrong_value", f"rows={rows} cols={c} rev=np.bool_({rev})", variant="np_bool")
     if len(rows) >= 2 and len(set(rows)) > 1 or (len(rows) >= 2 and prod(rows) > 1):
         ctx.nontriv()
 
